@@ -2545,6 +2545,14 @@ BUFR_Dataset  *bufr_decode_message_subsets( BUFR_Message *msg, BUFR_Tables *tabl
       nbsubset1 = nbsubset;
       if (subset_from > 0) 
 	 nbsubset1 = subset_to - subset_from + 1;
+      if (nbsubset1 <= 0)
+         {
+/*
+ * a compressed message announcing no subset at all has nothing to decode
+ */
+         bufr_free_sequence( bsq );
+         return dts;
+         }
 /*
  * allocates all subsets
  */
